@@ -467,7 +467,7 @@ def call_path(I, segs, args, env, fexpr):
         return Ch(v if isinstance(v, int) else z3.Extract(sym.CW - 1, 0, v))
     if s == "u32::from_str_radix":
         return parse_uint(I, args[0], args[1], 32)
-    if s in ("Rc::new", "Box::new", "RefCell::new", "Rc::clone", "std::mem::take"):
+    if s in ("Rc::new", "Box::new", "RefCell::new", "Rc::clone", "std::mem::take", "Rc::downgrade", "Weak::upgrade"):
         return args[0]
     if s == "Range" or last == "Range":
         raise Unsupported("Range ctor")
@@ -621,6 +621,8 @@ def method(I, recv, name, args, e, env):
         r = I.try_repo_method(recv, name, args)
         if r is not NotImplemented:
             return r
+    if name == "upgrade" and not args:
+        return Some(recv)          # Weak::upgrade: the referent is alive in every modelled state
     if name in IDENTITY and not args:
         if name == "to_string" and not isinstance(recv, (SStr, OpaqueStr)):
             if isinstance(recv, (Obj, Enum)):
